@@ -78,6 +78,20 @@ def main() -> int:
         seed = 0
     t0 = time.time()
     ctx = Ctx(prop, tier, seed)
+    # last-resort guard: a check must never hang (a real-code call that spins outside every per-call watchdog);
+    # a timeout is reported as exit 2, never as a verdict
+    import threading
+
+    hard = 1700 if tier == "quick" else 4 * 3600
+
+    def _too_long():
+        sys.stdout.write(f"TIMEOUT property={prop} tier={tier} after {hard}s (exit 2: no verdict)\n")
+        sys.stdout.flush()
+        os._exit(2)
+
+    _t = threading.Timer(hard, _too_long)
+    _t.daemon = True
+    _t.start()
     mod = importlib.import_module(f"props.{prop}")
 
     if args.replay:
